@@ -22,6 +22,21 @@ Record req_tables := mk_req_tables {
   rt_split : kind -> list nm -> bool;    (* is_split_required *)
   rt_records : kind -> bool }.           (* ... and whether it records the transform in `following` *)
 
+(* get_requirements / Complexity at /repo HEAD, over whatever is_split_required is (Gen/GenSplit.v) *)
+Definition model_req_tables (split : kind -> list nm -> bool) (records : kind -> bool) : req_tables :=
+  mk_req_tables [CPlain; CNonGroup; CWindowed; CAggregation] CAggregation CPlain
+    (fun c => if cx_eqb c CPlain then CAggregation else CPlain)
+    (fun aggregate_follows => if aggregate_follows then CPlain else CAggregation)
+    CAggregation CAggregation CAggregation split records.
+(* equality of the finite part of two tables *)
+Definition req_tables_eqb (a b : req_tables) : bool :=
+  forallb (fun p : cx * cx => cx_eqb (fst p) (snd p)) (combine (rt_order a) (rt_order b)) && Nat.eqb (length (rt_order a)) (length (rt_order b))
+  && cx_eqb (rt_highest a) (rt_highest b) && cx_eqb (rt_default a) (rt_default b)
+  && forallb (fun c => cx_eqb (rt_compute_allows a c) (rt_compute_allows b c)) all_cx
+  && forallb (fun x => cx_eqb (rt_filter_allows a x) (rt_filter_allows b x)) [true; false]
+  && cx_eqb (rt_sort_allows a) (rt_sort_allows b) && cx_eqb (rt_take_sort_allows a) (rt_take_sort_allows b)
+  && cx_eqb (rt_distinct_on_allows a) (rt_distinct_on_allows b).
+
 (* one transform, as the walk reads it *)
 Record titem := mk_titem {
   t_kind : kind;              (* SplitBase.kind (KSort covers both Super(Sort) and SqlTransform::Sort: t_super tells) *)
